@@ -1192,3 +1192,384 @@ def _tid_chain(ctx: Context, rf, read_tid_param: str) -> None:
     a, b = T.of(bcfg, ws[0][0], wa[wt[1]]), T.of(bcfg, rs[0][0], ra[read_tid_param])
     ck.check(R, a == b and a[0] != "const", "ble_request: the tid packed into the request header is the tid both response decoders expect (one value, drawn once)",
              f"{ctx.fkey(bf)}:request-tid", f"ble_request: request is written with tid {show(a, 60)} but the response is checked against {show(b, 60)}", ctx.loc(bf, rs[0][0]))
+
+
+# ====================================================================== C17.T1
+def _enum_const(ctx: Context, cls_qual: str, member: str):
+    try:
+        return ("const", ctx.prog.const_of(f"{cls_qual}.{member}"))
+    except Exception:  # noqa: BLE001 - NotConst / vanished member
+        return None
+
+
+def _t1(ctx: Context) -> None:
+    item = _t1_item_decoder(ctx)
+    start_e = _t1_encoder(ctx)
+    sparam = _t1_batch_decoder(ctx, item) if item is not None else None
+    _t1_call_sites(ctx, start_e, sparam)
+
+
+def _t1_item_decoder(ctx: Context):
+    """coap.pdu.decode_pdu: header width, every return starts with the unpacked length, reject edges map to their kind."""
+    ck = ctx.ck
+    T = ctx.terms
+    R = "C17.T1"
+    f = ctx.func(f"{COAP_PDU}.decode_pdu")
+    cfg = ctx.cfg(f.qualname)
+    ups = _unpack_sites(ctx, cfg)
+    if len(ups) != 1:
+        ck.unknown(R, f"coap decode_pdu: expected one header unpack, found {len(ups)}", f.loc())
+        return None
+    u = ups[0]
+    sl = _slice(u["buf"])
+    fl = _fields(u["fmt"])
+    hdr = _size(u["fmt"])
+    if sl is None or fl is None or u["off"] is not None or sl[0][0] != "param" or _ci(sl[2]) is None or (sl[1] is not None and _ci(sl[1]) is None):
+        ck.unknown(R, f"coap decode_pdu: header is unpacked from {show(u['buf'], 80)}, not <parameter>[const:const]", ctx.loc(f, u["node"]))
+        return None
+    D = sl[0]
+    lo, hi = (_ci(sl[1]) or 0), _ci(sl[2])
+    want = SPEC.COAP_RESPONSE_HEADER
+    ok = fl == want
+    ck.check(R, ok, f"coap decode_pdu: header fields are {want[0]}{''.join(want[1])} (control, tid, status, body length) = {hdr} bytes",
+             f"{ctx.fkey(f)}:layout", f"coap decode_pdu: header is unpacked as {u['fmt']}, HAP over CoAP says {want[0]}{''.join(want[1])}", ctx.loc(f, u["node"]))
+    if not ok:
+        return None
+    ck.check(R, lo == 0 and hi - lo == hdr, f"coap decode_pdu: the {hdr}-byte header is unpacked from the slice [0:{hdr}]", f"{ctx.fkey(f)}:unpack-width",
+             f"coap decode_pdu: {u['fmt']} ({hdr} bytes) is unpacked from data[{lo}:{hi}]", ctx.loc(f, u["node"]))
+    U = strip_sites(u["term"])
+    fld = {name: ("sub", U, ("const", i)) for i, name in enumerate(SPEC.COAP_RESPONSE_FIELDS)}
+    L = fld["body_length"]
+    CLS = f"{COAP_PDU}.PDUStatus"
+    st_term = ("call", ("glob", CLS), (fld["status"],), ())
+    kinds = {k: _enum_const(ctx, CLS, k) for k in ("SUCCESS", "TID_MISMATCH", "BAD_CONTROL")}
+    if any(v is None for v in kinds.values()):
+        ck.unknown(R, f"coap PDUStatus: members SUCCESS / TID_MISMATCH / BAD_CONTROL not all constant: {kinds}", f.loc())
+        return None
+    vals = {k: (v[1][0] if isinstance(v[1], tuple) else v[1]) for k, v in kinds.items()}
+    ck.check(R, all(isinstance(vals[k], int) and vals[k] > SPEC.WIRE_STATUS_MAX for k in ("TID_MISMATCH", "BAD_CONTROL")) and vals["TID_MISMATCH"] != vals["BAD_CONTROL"],
+             "coap PDUStatus: the decoder's own error kinds lie outside the one-byte wire status range and differ",
+             f"{COAP_PDU}:PDUStatus:custom-values", f"coap PDUStatus: TID_MISMATCH={vals['TID_MISMATCH']}, BAD_CONTROL={vals['BAD_CONTROL']} collide with wire status bytes or each other", f.loc())
+
+    # returns: the unpacked length first
+    rets = [n for n in cfg.nodes if n.kind == "return"]
+    ck.require_min(R, "coap decode_pdu: returns", len(rets), 4)
+    rt = {}
+    oks = []
+    for r in rets:
+        t = strip_sites(T.of(cfg, r, r.exprs[0])) if r.exprs else ("const", None)
+        if t[0] != "tuple" or len(t[1]) != 2:
+            ck.unknown(R, f"coap decode_pdu: return value {show(t, 80)} is not a (length, body-or-status) pair", ctx.loc(f, r))
+            return None
+        rt[r.id] = t[1]
+        ck.check(R, t[1][0] == L, "coap decode_pdu: the return starts with the body length unpacked from this item's header (an error item advances by its own length)",
+                 f"{ctx.fkey(f)}:return-length:{norm_stmt(show(t[1][1], 60))}",
+                 f"coap decode_pdu: `{r.text()}` returns {show(t[1][0], 60)} as the length: decode_all_pdus then advances by the wrong amount and every later item of the batch is "
+                 "parsed from inside this item's body (shifted results)", ctx.loc(f, r))
+        s = _slice(t[1][1])
+        if s is not None:
+            oks.append(r)
+            w = _minus(s[2], s[1]) if s[2] is not None else None
+            good = s[0] == D and _ci(s[1]) == hdr and w == L
+            ck.check(R, good, f"coap decode_pdu: the body is data[{hdr}:{hdr} + body_len] - starts right after the {hdr}-byte header and has the announced length",
+                     f"{ctx.fkey(f)}:body-slice", f"coap decode_pdu: the body is {show(t[1][1], 100)}; the header is {hdr} bytes and the announced length is {show(L, 40)}", ctx.loc(f, r))
+    if len(oks) != 1:
+        ck.unknown(R, f"coap decode_pdu: expected one return of a body slice, found {len(oks)}", f.loc())
+        return None
+    okr = oks[0]
+
+    # reject edges
+    def band(x):
+        if x[0] == "binop" and x[1] == "BitAnd":
+            if x[2] == fld["control"]:
+                return _ci(x[3])
+            if x[3] == fld["control"]:
+                return _ci(x[2])
+        return None
+
+    gates = {"tid": ([], []), "status": ([], []), "control": ([], [])}
+    exp_params = set()
+    for n in cfg.nodes:
+        if n.kind != "test":
+            continue
+        c = _cmp(strip_sites(T.of(cfg, n, n.exprs[0])))
+        if c is None or c[0] not in ("Eq", "NotEq"):
+            continue
+        kind = None
+        for a, b in ((c[1], c[2]), (c[2], c[1])):
+            if a == fld["tid"] and b[0] == "param" and b != D:
+                kind = "tid"
+                exp_params.add(b[1])
+            elif a == st_term and b == kinds["SUCCESS"]:
+                kind = "status"
+            elif band(a) == SPEC.CONTROL_TYPE_MASK and _ci(b) == SPEC.CONTROL_TYPE_RESPONSE:
+                kind = "control"
+        if kind:
+            gates[kind][0].extend(ctx.edges(cfg, n, "T" if c[0] == "Eq" else "F"))
+            gates[kind][1].extend(ctx.edges(cfg, n, "F" if c[0] == "Eq" else "T"))
+    names = {"tid": "tid test [received tid == expected tid]", "status": "status test [status == SUCCESS]",
+             "control": f"control test [control & {SPEC.CONTROL_TYPE_MASK:#04x} == {SPEC.CONTROL_TYPE_RESPONSE:#04x} (response)]"}
+    expect = {"tid": kinds["TID_MISMATCH"], "status": st_term, "control": kinds["BAD_CONTROL"]}
+    label = {"tid": "PDUStatus.TID_MISMATCH", "status": "the item's own status", "control": "PDUStatus.BAD_CONTROL"}
+    n_g = 0
+    for k in ("tid", "status", "control"):
+        acc_e, rej_e = gates[k]
+        ctx.must_pass(R, cfg, okr, names[k], acc_e, desc=f"coap decode_pdu: a body is returned only through the {names[k]}")
+        for e in rej_e:
+            n_g += 1
+            reach = cfg.reachable_from(e[1], avoid_nodes=[okr.id])
+            got = [rt[x] for x in reach if x in rt]
+            good = bool(got) and all(g[1] == expect[k] for g in got) and okr.id not in cfg.reachable_from(e[1])
+            ck.check(R, good, f"coap decode_pdu: a failed {k} test makes the item {label[k]}", f"{ctx.fkey(f)}:reject-kind:{k}",
+                     f"coap decode_pdu: after a failed {k} test the item becomes {[show(g[1], 50) for g in got]} instead of {label[k]}", ctx.loc(f, cfg.nodes[e[0]]))
+    ck.require_min(R, "coap decode_pdu: reject edges (tid, status, control)", n_g, 3)
+    if len(exp_params) != 1:
+        return None
+    return {"f": f, "hdr": hdr, "data": D[1], "tid": exp_params.pop()}
+
+
+def _t1_encoder(ctx: Context):
+    """coap.pdu.encode_all_pdus: tid = enumerate index; returns the start value of the enumeration (None if unknown)."""
+    ck = ctx.ck
+    T = ctx.terms
+    R = "C17.T1"
+    f = ctx.func(f"{COAP_PDU}.encode_all_pdus")
+    cfg = ctx.cfg(f.qualname)
+    rets = [n for n in cfg.nodes if n.kind == "return"]
+    if len(rets) != 1 or not rets[0].exprs:
+        ck.unknown(R, f"encode_all_pdus: expected one return, found {len(rets)}", f.loc())
+        return None
+    r = rets[0]
+    t = strip_sites(T.of(cfg, r, r.exprs[0]))
+    if not (t[0] == "call" and t[1] == ("attr", ("const", b""), "join") and len(t[2]) == 1 and t[2][0][0] == "comp"
+            and t[2][0][1] in ("ListComp", "GeneratorExp") and len(t[2][0][3]) == 1):
+        ck.unknown(R, f"encode_all_pdus: result {show(t, 120)} is not b''.join(<one PDU per item, one generator>)", ctx.loc(f, r))
+        return None
+    _k, _kind, elt, gens = t[2][0]
+    tgt, it, conds = gens[0]
+    ps = _parts(elt)
+    pk = _pack(ps[0]) if ps else None
+    if pk is None or len(ps) != 2 or conds or not (_is_call_to(it, "enumerate") and it[2]) or tgt[0] != "tuple" or len(tgt[1]) != 2:
+        ck.unknown(R, f"encode_all_pdus: item {show(elt, 100)} for {show(tgt, 30)} in {show(it, 60)} is not <packed header> + body over enumerate(...) "
+                      "(encode_pdu not inlined?)", ctx.loc(f, r))
+        return None
+    fmt, args = pk
+    want = SPEC.COAP_REQUEST_HEADER
+    ok = _fields(fmt) == want and len(args) == len(want[1])
+    ck.check(R, ok, f"coap encode_pdu: request header is packed as {want[0]}{''.join(want[1])} (control, opcode, tid, iid, body length)",
+             f"{COAP_PDU}:encode_pdu:layout", f"coap encode_pdu: header packed as {fmt}, HAP over CoAP says {want[0]}{''.join(want[1])}", ctx.loc(f, r))
+    if not ok:
+        return None
+    a = dict(zip(SPEC.COAP_REQUEST_FIELDS, args))
+    idx_t, item_t = tgt[1]
+    ck.check(R, a["tid"] == idx_t, "encode_all_pdus: the tid of each request is the enumerate index of its item",
+             f"{ctx.fkey(f)}:tid-is-index", f"encode_all_pdus: tid is {show(a['tid'], 60)}, not the enumerate index {show(idx_t, 30)}", ctx.loc(f, r))
+    src = it[2][0]
+    okz = (_is_call_to(src, "zip") and len(src[2]) == 2 and src[2][0][0] == "param" and src[2][1][0] == "param" and src[2][0] != src[2][1]
+           and a["iid"] == ("sub", item_t, ("const", 0)) and ps[1] == ("sub", item_t, ("const", 1)) and _is_len_of(a["body_length"], ps[1]))
+    ck.check(R, okz, "encode_all_pdus: item i carries iids[i], data[i] and len(data[i]) (zip of the two parameters)",
+             f"{ctx.fkey(f)}:zip", f"encode_all_pdus: item is built from {show(src, 60)}: iid {show(a['iid'], 40)}, body {show(ps[1], 40)}, length {show(a['body_length'], 40)}", ctx.loc(f, r))
+    c0 = _ci(a["control"])
+    ck.check(R, c0 is not None and c0 & (SPEC.CONTROL_FRAGMENT_BIT | SPEC.CONTROL_TYPE_MASK) == SPEC.CONTROL_TYPE_REQUEST,
+             "coap encode_pdu: control byte is an unfragmented request", f"{COAP_PDU}:encode_pdu:control", f"coap encode_pdu: control byte is {show(a['control'])}", ctx.loc(f, r))
+    start = None
+    if len(it[2]) == 1 and not it[3]:
+        start = 0
+    elif len(it[2]) == 2 and not it[3]:
+        start = _ci(it[2][1])
+    elif len(it[2]) == 1 and len(it[3]) == 1 and it[3][0][0] == "start":
+        start = _ci(it[3][0][1])
+    if start is None:
+        ck.unknown(R, f"encode_all_pdus: start of {show(it, 60)} is not a constant", ctx.loc(f, r))
+    return start
+
+
+def _t1_batch_decoder(ctx: Context, item):
+    """coap.pdu.decode_all_pdus: expected tid and offset are stepped once per item by 1 / header + own length."""
+    ck = ctx.ck
+    T = ctx.terms
+    R = "C17.T1"
+    f = ctx.func(f"{COAP_PDU}.decode_all_pdus")
+    cfg = ctx.cfg(f.qualname)
+    du = T.du(cfg)
+    sites = _calls_to(ctx, cfg, item["f"].qualname)
+    if len(sites) != 1 or _loop_of(sites[0][0]) is None:
+        ck.unknown(R, f"decode_all_pdus: expected one call of decode_pdu inside a loop, found {len(sites)}", f.loc())
+        return None
+    dn, dc = sites[0]
+    loop = _loop_of(dn)
+    dsite = T.of(cfg, dn, dc)[4]
+    am = _argmap(dc, item["f"])
+    if am is None or item["tid"] not in am or item["data"] not in am:
+        ck.unknown(R, "decode_all_pdus: arguments of decode_pdu cannot be mapped", ctx.loc(f, dn))
+        return None
+
+    def proj_of_call(t, k):
+        p = _proj(t)
+        return p is not None and len(p[0]) == 5 and p[0][4] == dsite and p[1] == k
+
+    def stepped(expr, what):
+        """expr is a variable with one definition before the loop and one `+=` inside: (var, init term, step node, step term)."""
+        n0, e0 = _resolve_ast(T, cfg, dn, expr)
+        if not isinstance(e0, ast.Name):
+            ck.unknown(R, f"decode_all_pdus: {what} `{_u(expr)}` is not a stepped variable", ctx.loc(f, dn))
+            return None
+        defs = du.reaching(n0.id, e0.id)
+        inits = [(i, d) for i, d in defs if _loop_of(cfg.nodes[i]) is None]
+        steps = [(i, d) for i, d in defs if _loop_of(cfg.nodes[i]) is loop and len(_loops_of(cfg.nodes[i])) == len(_loops_of(dn))]
+        if len(inits) != 1 or len(steps) != 1 or len(defs) != 2 or inits[0][1].kind != "assign" or inits[0][1].path:
+            ck.unknown(R, f"decode_all_pdus: {what} `{e0.id}` has {len(defs)} reaching definitions, expected one initialisation and one step per item", ctx.loc(f, dn))
+            return None
+        si, sd = steps[0]
+        sn = cfg.nodes[si]
+        if sd.kind == "aug" and isinstance(sd.extra, ast.Add):
+            st = T.of(cfg, sn, sd.value)
+        else:
+            ck.unknown(R, f"decode_all_pdus: {what} is stepped by `{sn.text()}`, not by `+=`", ctx.loc(f, sn))
+            return None
+        p = _cycle_avoiding(cfg, dn, avoid_nodes=[si])
+        ck.check(R, p is None, f"decode_all_pdus: {what} is stepped exactly once between two items", f"{ctx.fkey(f)}:{what.split()[0]}:once-per-item",
+                 f"decode_all_pdus: the next item can be decoded without stepping the {what}", ctx.loc(f, sn), cfg.render_path(p) if p else None)
+        q = cfg.find_path(cfg.entry.id, si, avoid_nodes=[dn.id])
+        ck.check(R, q is None, f"decode_all_pdus: {what} is stepped after the item was decoded", f"{ctx.fkey(f)}:{what.split()[0]}:after-decode",
+                 f"decode_all_pdus: the {what} is stepped before the first item is decoded", ctx.loc(f, sn), cfg.render_path(q) if q else None)
+        return e0.id, T.of(cfg, cfg.nodes[inits[0][0]], inits[0][1].value), sn, st
+
+    # expected tid
+    sparam = None
+    r1 = stepped(am[item["tid"]], "expected tid")
+    if r1 is not None:
+        _v, init, sn, st = r1
+        if init[0] != "param":
+            ck.unknown(R, f"decode_all_pdus: the expected tid starts at {show(init, 60)}, not at a parameter", ctx.loc(f, dn))
+        else:
+            sparam = init[1]
+            ck.holds(R, f"decode_all_pdus: the first item is expected with tid = parameter `{sparam}`", ctx.loc(f, dn))
+        ck.check(R, _ci(st) == 1, "decode_all_pdus: item i is expected with tid starting_tid + i (step 1)", f"{ctx.fkey(f)}:tid-step",
+                 f"decode_all_pdus: the expected tid advances by {show(st, 40)} per item but the encoder numbers items consecutively - every item after the first is TID_MISMATCH",
+                 ctx.loc(f, sn))
+    # offset
+    _n, de = _resolve_ast(T, cfg, dn, am[item["data"]])
+    dt = T.of(cfg, dn, am[item["data"]])
+    s = _slice(dt)
+    if not (isinstance(de, ast.Subscript) and isinstance(de.slice, ast.Slice) and de.slice.lower is not None and de.slice.upper is None and de.slice.step is None
+            and s is not None and s[0][0] == "param"):
+        ck.unknown(R, f"decode_all_pdus: decode_pdu is given {show(dt, 80)}, not <parameter>[offset:]", ctx.loc(f, dn))
+        return sparam
+    P = s[0]
+    r2 = stepped(de.slice.lower, "offset")
+    off_var = None
+    if r2 is not None:
+        off_var, init, sn, st = r2
+        ck.check(R, _ci(init) == 0, "decode_all_pdus: the first item is decoded at offset 0", f"{ctx.fkey(f)}:offset-init",
+                 f"decode_all_pdus: the offset starts at {show(init, 40)}", ctx.loc(f, dn))
+        ps = _parts(st)
+        cs = [p for p in ps if _ci(p) is not None]
+        ls = [p for p in ps if _ci(p) is None]
+        if len(cs) != 1 or len(ls) != 1:
+            ck.unknown(R, f"decode_all_pdus: the offset advances by {show(st, 80)}, not <constant> + <length>", ctx.loc(f, sn))
+        else:
+            k = _ci(cs[0])
+            ck.check(R, k == item["hdr"], f"decode_all_pdus: the offset advances by the header size {item['hdr']} = calcsize of the unpacked header = start of the body slice",
+                     f"{ctx.fkey(f)}:offset-header-size",
+                     f"decode_all_pdus: the offset advances by {k} + body_len but an item occupies {item['hdr']} + body_len bytes: the second item of every batch is decoded "
+                     f"{abs(item['hdr'] - k)} byte(s) {'early' if k < item['hdr'] else 'late'} (wrong tid/status/length, shifted or missing results)", ctx.loc(f, sn))
+            ck.check(R, proj_of_call(ls[0], 0), "decode_all_pdus: ... plus the length returned for this very item (element 0 of the same decode_pdu call)",
+                     f"{ctx.fkey(f)}:offset-own-length", f"decode_all_pdus: the offset advances by {show(ls[0], 80)}, not by the length decode_pdu returned for this item", ctx.loc(f, sn))
+    # results
+    apps = []
+    for n in cfg.nodes:
+        if _loop_of(n) is not loop and loop not in _loops_of(n):
+            continue
+        for c in ctx.calls(n):
+            if isinstance(c.func, ast.Attribute) and c.func.attr == "append" and len(c.args) == 1 and isinstance(c.func.value, ast.Name) and proj_of_call(T.of(cfg, n, c.args[0]), 1):
+                apps.append((n, c.func.value.id))
+    if len(apps) != 1:
+        ck.unknown(R, f"decode_all_pdus: expected one `results.append(<element 1 of the decode_pdu call>)`, found {len(apps)}", ctx.loc(f, dn))
+    else:
+        an, lst = apps[0]
+        p = _cycle_avoiding(cfg, dn, avoid_nodes=[an.id])
+        nested = len(_loops_of(an)) != len(_loops_of(dn))
+        ck.check(R, p is None and not nested, "decode_all_pdus: every decoded item appends exactly one result (body or error kind), in order",
+                 f"{ctx.fkey(f)}:one-result-per-item", "decode_all_pdus: an item can be decoded without appending its result - later results shift to earlier indices",
+                 ctx.loc(f, an), cfg.render_path(p) if p else None)
+        for r in [n for n in cfg.nodes if n.kind == "return"]:
+            ok = bool(r.exprs) and isinstance(r.exprs[0], ast.Name) and r.exprs[0].id == lst and _def_ids(T, cfg, r, lst) == _def_ids(T, cfg, an, lst) and len(_def_ids(T, cfg, an, lst)) == 1
+            ck.check(R, ok, "decode_all_pdus: returns the list the results were appended to", f"{ctx.fkey(f)}:returns-results",
+                     f"decode_all_pdus: `{r.text()}` does not return the result list", ctx.loc(f, r))
+    # termination: another item exactly while offset < len(data)
+    if off_var is not None:
+        found = 0
+        for n in cfg.nodes:
+            if n.kind != "test":
+                continue
+            cp = n.exprs[0]
+            c = _cmp(T.of(cfg, n, cp))
+            if c is None or not isinstance(cp, ast.Compare):
+                continue
+            op, l, r = c
+            la, ra = cp.left, cp.comparators[0]
+            if _is_len_of(l, P):
+                op, l, r, la, ra = _FLIP.get(op), r, l, ra, la
+            if op is None or not _is_len_of(r, P):
+                continue
+            _nn, le = _resolve_ast(T, cfg, n, la)
+            if not (isinstance(le, ast.Name) and le.id == off_var):
+                continue
+            found += 1
+            lab = {}
+            for x in ("T", "F"):
+                for e in ctx.edges(cfg, n, x):
+                    lab[x] = dn.id in cfg.reachable_from(e[1], avoid_nodes=[n.id])
+            if sorted(lab.values()) != [False, True]:
+                ck.unknown(R, "decode_all_pdus: cannot tell which outcome of the end test decodes another item", ctx.loc(f, n))
+                continue
+            more = op if lab["T"] else {"Lt": "GtE", "GtE": "Lt", "Gt": "LtE", "LtE": "Gt", "Eq": "NotEq", "NotEq": "Eq"}[op]
+            ck.check(R, more == "Lt", "decode_all_pdus: another item is decoded exactly while offset < len(data)", f"{ctx.fkey(f)}:end-test",
+                     f"decode_all_pdus: another item is decoded while offset {more} len(data)" + (" - after the last item an empty slice is unpacked (struct.error), the whole batch is lost" if more in ("LtE", "NotEq") else ""),
+                     ctx.loc(f, n))
+            p = _cycle_avoiding(cfg, dn, avoid_nodes=[n.id])
+            ck.check(R, p is None, "decode_all_pdus: the end test is evaluated between any two items", f"{ctx.fkey(f)}:end-test-every-item",
+                     "decode_all_pdus: the next item can be decoded without the end test", ctx.loc(f, n), cfg.render_path(p) if p else None)
+        if not found:
+            ck.unknown(R, "decode_all_pdus: no test compares the offset with len(data) - end of batch not recognised", f.loc())
+    return sparam
+
+
+def _t1_call_sites(ctx: Context, start_e, sparam) -> None:
+    ck = ctx.ck
+    T = ctx.terms
+    R = "C17.T1"
+    prog = ctx.prog
+    DEC, ENC = f"{COAP_PDU}.decode_all_pdus", f"{COAP_PDU}.encode_all_pdus"
+    df = ctx.func(DEC)
+    n_sites = 0
+    for g in prog.package_functions():
+        if isinstance(g.node, ast.Lambda):
+            continue
+        m = g.module
+        if m.name != COAP_PDU and not any(prog.resolve_dotted(m, k).startswith(COAP_PDU) for k in m.imports):
+            continue
+        gcfg = ctx.cfg(g.qualname)
+        decs = _calls_to(ctx, gcfg, DEC)
+        if not decs:
+            continue
+        encs = _calls_to(ctx, gcfg, ENC)
+        for n, c in decs:
+            n_sites += 1
+            am = _argmap(c, df)
+            if sparam is None or start_e is None or am is None or sparam not in am:
+                ck.unknown(R, f"{g.name}: starting tid of `{_u(c)[:60]}` cannot be compared with the encoder (see above)", ctx.loc(g, n))
+                continue
+            st = T.of(gcfg, n, am[sparam])
+            if not encs:
+                ck.unknown(R, f"{g.name}: decode_all_pdus without an encode_all_pdus in the same function", ctx.loc(g, n))
+                continue
+            if _ci(st) is None:
+                ck.unknown(R, f"{g.name}: starting tid {show(st, 60)} is not a constant", ctx.loc(g, n))
+                continue
+            ck.check(R, _ci(st) == start_e, f"{g.name}: responses are matched from tid {start_e}, the first tid the encoder assigns",
+                     f"{ctx.fkey(g)}:starting-tid",
+                     f"{g.name}: the encoder numbers the requests from {start_e} but the responses are expected from {_ci(st)}: every item of every batch becomes TID_MISMATCH",
+                     ctx.loc(g, n))
+    ck.require_min(R, "call sites of decode_all_pdus", n_sites, 1)
